@@ -63,6 +63,9 @@ type Double struct {
 	OnCall func(c *Call)
 	// Result decides what the call returns; nil = DefaultResult.
 	Result func(c *Call) (*resp.Value, error)
+	// RawResult, when it returns handled=true, decides the call's result directly
+	// (used to inject handler results that are not plain value trees).
+	RawResult func(c *Call) (msg *redis.Message, err error, handled bool)
 	// ConnID maps a *redis.Conn to the simulated connection id.
 	ConnID func(c *redis.Conn) string
 }
@@ -119,6 +122,15 @@ func (d *Double) record(conn *redis.Conn, method string, sig string) (*redis.Mes
 	d.mu.Unlock()
 	if d.OnCall != nil {
 		d.OnCall(c)
+	}
+	if d.RawResult != nil {
+		if m, err, ok := d.RawResult(c); ok {
+			if err != nil {
+				c.Err = err.Error()
+				c.HasErr = true
+			}
+			return m, err
+		}
 	}
 	res := d.Result
 	if res == nil {
